@@ -28,6 +28,7 @@ class St:
         self.tasks = {}
         self.cancelled_by_harness = set()
         self.notes = []
+        self.frozen = False
 
 
 def run_program(make_batcher, calls, st, *, cancels=None, timeouts=None, after=None, linger=0):
@@ -60,6 +61,8 @@ def run_program(make_batcher, calls, st, *, cancels=None, timeouts=None, after=N
             if isinstance(e, (GeneratorExit, KeyboardInterrupt, SystemExit, vloop.Deadlock)):
                 raise
             out = ('exc', e)
+        if st.frozen:
+            return  # completion during the harness's own shutdown phase is not an outcome
         st.out[i] = out
         st.done_at[i] = loop.time()
 
@@ -86,7 +89,9 @@ def run_program(make_batcher, calls, st, *, cancels=None, timeouts=None, after=N
         st.loop_task_done = lt.done() if lt is not None else None
         return True
 
-    outcome, loop = vloop.run(main)
+    def _freeze(outcome):
+        st.frozen = True
+    outcome, loop = vloop.run(main, before_shutdown=_freeze)
     st.unhandled = list(loop.unhandled)
     return outcome
 
@@ -299,6 +304,316 @@ def twin_c11(gaps, rt):
     return ['reached'] if len(RAW['batches']) >= 2 and len(RAW['batches']) < 3 else []
 
 
+
+# =============================================================================== C04 / C09
+class YExc(ValueError):
+    """exception instance *yielded* by the batch function for one key"""
+
+
+class YSub(YExc):
+    pass
+
+
+class BatchFail(RuntimeError):
+    """exception *raised* by the batch function itself"""
+
+
+BEH = ('value', 'exc', 'sub', 'omit', 'raise', 'twice', 'unknown', 'stopiter')
+KEYS3 = ('a', 'b', 'c')
+
+
+def _batch_fn(st, beh_of, order_idx, item_dur, batch_dur):
+    """harness-owned batch function: behaviour per key, result order, durations."""
+    async def f(batch):
+        batch = list(batch)
+        loop = aio.get_running_loop()
+        bid = len(st.batches)
+        rec = {'bid': bid, 'start': loop.time(), 'keys': [k for k, _ in batch], 'yields': [], 'raised': None,
+               'end': None, 'violation': False}
+        st.batches.append(rec)
+        st.running += 1
+        st.maxrun = max(st.maxrun, st.running)
+        try:
+            if batch_dur > 0:
+                await aio.sleep(batch_dur)
+            items = list(batch)
+            if order_idx == 1:
+                items = items[::-1]
+            elif order_idx == 2:
+                items = items[1:] + items[:1]
+            for k, v in items:
+                if item_dur > 0:
+                    await aio.sleep(item_dur)
+                b = beh_of(k)
+                if b == 'value':
+                    obj = ('val', bid, k)
+                elif b == 'exc':
+                    obj = YExc(bid, k)
+                elif b == 'sub':
+                    obj = YSub(bid, k)
+                elif b == 'stopiter':
+                    # cannot be raised through a future (PEP 479): the batch counts as protocol-violating,
+                    # only completion / no cross-key leakage is required of it (DESIGN 4/C04)
+                    rec['violation'] = True
+                    obj = StopIteration(bid, k)
+                elif b == 'omit':
+                    continue
+                elif b == 'raise':
+                    rec['raised'] = BatchFail(bid)
+                    raise rec['raised']
+                elif b == 'twice':
+                    obj = ('val', bid, k)
+                    rec['yields'].append((k, obj))
+                    yield k, obj
+                    rec['violation'] = True
+                    obj = ('val2', bid, k)
+                elif b == 'unknown':
+                    rec['violation'] = True
+                    rec['yields'].append(('zzz', ('val', bid, 'zzz')))
+                    yield 'zzz', ('val', bid, 'zzz')
+                    obj = ('val', bid, k)
+                rec['yields'].append((k, obj))
+                yield k, obj
+        finally:
+            st.running -= 1
+            rec['end'] = loop.time()
+    return f
+
+
+def judge_outcomes(st, n, keyof, cancelled, strict_value=False):
+    """Necessary conditions N1..N5 of DESIGN 4/C04 on every caller not cancelled by the harness."""
+    devs = []
+    byid = {}
+    for rec in st.batches:
+        for pos, (k, obj) in enumerate(rec['yields']):
+            byid[id(obj)] = (rec, k, pos)
+    fails = {id(rec['raised']): rec for rec in st.batches if rec['raised'] is not None}
+    for i in range(n):
+        if i in cancelled:
+            continue
+        k = keyof[i]
+        out = st.out.get(i)
+        if out is None:
+            continue  # reported by hang_devs
+        if out[0] == 'ok':
+            v = out[1]
+            if isinstance(v, BaseException):
+                devs.append('exception-object-returned-as-value')
+            elif id(v) not in byid:
+                devs.append('value-not-produced-by-batch-function')
+            else:
+                rec, yk, pos = byid[id(v)]
+                if yk != k:
+                    devs.append('received-value-yielded-for-another-key')
+                elif any(kk == k for kk, _ in rec['yields'][:pos]) and not rec['violation']:
+                    devs.append('received-later-duplicate-yield')
+        elif out[0] == 'exc':
+            e = out[1]
+            if id(e) in byid:
+                rec, yk, pos = byid[id(e)]
+                if yk != k:
+                    devs.append('received-exception-yielded-for-another-key')
+            elif id(e) in fails:
+                rec = fails[id(e)]
+                if k not in rec['keys']:
+                    devs.append('received-failure-of-a-batch-without-its-key')
+                elif any(kk == k for kk, _ in rec['yields']):
+                    devs.append('answered-caller-received-batch-failure')
+            elif isinstance(e, aio.CancelledError):
+                devs.append('bystander-cancelled')
+            else:
+                # generic error: allowed only if some batch with this key omitted it or broke the protocol
+                ok = False
+                for rec in st.batches:
+                    if k in rec['keys'] and (rec['violation'] or (rec['raised'] is None and not any(kk == k for kk, _ in rec['yields']))):
+                        ok = True
+                if not ok:
+                    devs.append('spurious-error:' + type(e).__name__)
+        elif out[0] == 'cancelled':
+            devs.append('bystander-cancelled')
+        else:
+            devs.append('unexpected-outcome:' + out[0])
+    # completeness: first yield of a key before any failure reaches at least one caller of that key
+    for rec in st.batches:
+        if rec['violation']:
+            continue
+        seen = set()
+        for (k, obj) in rec['yields']:
+            if k in seen or k == 'zzz':
+                continue
+            seen.add(k)
+            if isinstance(obj, StopIteration):
+                continue
+            callers = [i for i in range(n) if keyof[i] == k and i not in cancelled]
+            if not callers:
+                continue
+            if not any(st.out.get(i) is not None and len(st.out[i]) > 1 and st.out[i][1] is obj for i in callers):
+                # the callers of this key may all belong to another batch of the same key
+                others = [r for r in st.batches if r is not rec and k in r['keys']]
+                if not others:
+                    devs.append('yielded-outcome-not-delivered')
+        if rec['raised'] is not None:
+            unanswered = [k for k in rec['keys'] if not any(kk == k for kk, _ in rec['yields'])]
+            for k in unanswered:
+                callers = [i for i in range(n) if keyof[i] == k and i not in cancelled]
+                others = [r for r in st.batches if r is not rec and k in r['keys']]
+                if callers and not others and not any(st.out.get(i) is not None and len(st.out[i]) > 1 and st.out[i][1] is rec['raised'] for i in callers):
+                    devs.append('batch-failure-not-delivered-to-unanswered-caller')
+    return devs
+
+
+def scen_c04(gaps, kidx, beh, order_idx, item_dur, batch_dur, mbs, mcb, rt=0, bt=10, via_deco=False):
+    """keys chosen by index (repeat), behaviour per key by index into BEH."""
+    global LAST_INFO, RAW
+    st = St()
+    n = len(gaps)
+    nb = len(BEH)
+    behs = [BEH[pick(b, nb)] for b in beh]
+    order_idx = pick(order_idx, 3)
+    keyof = [KEYS3[pick(k, 3)] for k in kidx]
+
+    def beh_of(k):
+        return behs[KEYS3.index(k)] if k in KEYS3 else 'value'
+    f = _batch_fn(st, beh_of, order_idx, item_dur, batch_dur)
+
+    if via_deco:
+        deco = M.async_background_batcher(f, max_batch_size=mbs, max_concurrent_batches=mcb, batch_timeout=bt, retention_timeout=rt)
+
+        def mk():
+            return deco
+    else:
+        def mk():
+            return M.AsyncBackgroundBatcher(f, max_batch_size=mbs, max_concurrent_batches=mcb, batch_timeout=bt, retention_timeout=rt)
+    calls = [(gaps[i], 100 + i, keyof[i]) for i in range(n)]
+    outcome = run_program(mk, calls, st)
+    RAW = {'batches': st.batches, 'out': st.out}
+    devs = []
+    if outcome[0] == 'hang':
+        for i in range(n):
+            if i not in st.out:
+                b = beh_of(keyof[i])
+                devs.append('caller-never-completes:key-yielded-StopIteration' if b == 'stopiter' else 'caller-never-completes')
+        if not devs:
+            devs.append('program-hangs')
+        devs = sorted(set(devs))
+    else:
+        devs = hang_devs(st, outcome, n)
+    devs += judge_outcomes(st, n, keyof, set())
+    if not tracing():
+        LAST_INFO = {'gaps': list(gaps), 'keys': keyof, 'behaviour': dict(zip(KEYS3, behs)), 'order': order_idx,
+                     'item_dur': item_dur, 'batch_dur': batch_dur, 'mbs': mbs, 'mcb': mcb, 'rt': rt,
+                     'out': {i: repr(st.out.get(i)) for i in range(n)},
+                     'batches': [(r['start'], r['keys'], [(k, repr(o)) for k, o in r['yields']], repr(r['raised'])) for r in st.batches]}
+    return sorted(set(devs))
+
+
+def twin_c04(gaps, kidx, beh):
+    """Reachability: 'a batch raised after answering one caller and left another unanswered'."""
+    devs = scen_c04(gaps, kidx, beh, 0, 0, 1, 3, 1)
+    if devs:
+        return []
+    for rec in RAW['batches']:
+        if rec['raised'] is not None and rec['yields'] and len(rec['keys']) >= 3:
+            return ['reached']
+    return []
+
+
+def scen_c09(gaps, kidx, cancel_delay, who, use_timeout, order_idx, batch_dur, mbs, rt=0, bt=5, fresh=True, who2=-1, cancel_delay2=0):
+    """every key yields a value; caller `who` (and optionally `who2`) is cancelled `cancel_delay` after its
+    arrival (task.cancel, or wait_for expiry when use_timeout); afterwards fresh calls must be served."""
+    global LAST_INFO, RAW
+    st = St()
+    n = len(gaps)
+    keyof = [KEYS3[pick(k, 3)] for k in kidx]
+    who = pick(who, n)
+    order_idx = pick(order_idx, 3)
+    f = _batch_fn(st, lambda k: 'value', order_idx, 0, batch_dur)
+
+    def mk():
+        return M.AsyncBackgroundBatcher(f, max_batch_size=mbs, max_concurrent_batches=2, batch_timeout=bt, retention_timeout=rt)
+    calls = [(gaps[i], 100 + i, keyof[i]) for i in range(n)]
+    plan = {who: cancel_delay}
+    if who2 >= 0:
+        who2 = pick(who2, n)
+        if who2 != who:
+            plan[who2] = cancel_delay2
+    fresh_out = {}
+
+    async def after(b, st_):
+        if not fresh:
+            return
+        for j, k in enumerate(('a', 'd')):
+            try:
+                fresh_out[j] = ('ok', await aio.wait_for(b(500 + j, key=k), 1000))
+            except BaseException as e:  # noqa
+                reraise_engine(e)
+                if isinstance(e, (GeneratorExit, KeyboardInterrupt, SystemExit, vloop.Deadlock)):
+                    raise
+                fresh_out[j] = ('exc', e)
+    if use_timeout:
+        outcome = run_program(mk, calls, st, timeouts=plan, after=after)
+    else:
+        outcome = run_program(mk, calls, st, cancels=plan, after=after)
+    RAW = {'batches': st.batches, 'out': st.out}
+    # callers the harness disturbed: cancelled by it, or whose own wait_for expired
+    disturbed = set(st.cancelled_by_harness)
+    for i in plan:
+        o = st.out.get(i)
+        if use_timeout and o is not None and o[0] == 'timeout':
+            disturbed.add(i)
+    devs = []
+    if outcome[0] == 'hang':
+        missing = [i for i in range(n) if i not in st.out]
+        if any(i not in plan for i in missing):
+            devs.append('bystander-never-completes')
+        elif missing:
+            devs.append('cancelled-caller-never-completes')
+        else:
+            devs.append('fresh-call-never-completes' if fresh else 'program-hangs')
+    else:
+        devs += hang_devs(st, outcome, n)
+    for i in range(n):
+        if i in disturbed:
+            continue
+        out = st.out.get(i)
+        if out is None:
+            continue
+        k = keyof[i]
+        if out[0] == 'ok':
+            v = out[1]
+            if not (isinstance(v, tuple) and len(v) == 3 and v[0] == 'val' and v[2] == k):
+                devs.append('bystander-wrong-value')
+        elif out[0] == 'cancelled' or (out[0] == 'exc' and isinstance(out[1], aio.CancelledError)):
+            devs.append('bystander-sharing-key-cancelled' if any(keyof[j] == k for j in disturbed) else 'bystander-cancelled')
+        elif out[0] == 'exc':
+            devs.append('bystander-got-' + type(out[1]).__name__)
+        else:
+            devs.append('bystander-' + out[0])
+    if outcome[0] == 'ok' and fresh:
+        if getattr(st, 'loop_task_done', False):
+            devs.append('processing-task-died')
+        for j, k in enumerate(('a', 'd')):
+            o = fresh_out.get(j)
+            if o is None or o[0] != 'ok' or not (isinstance(o[1], tuple) and o[1][0] == 'val' and o[1][2] == k):
+                devs.append('fresh-call-after-cancellation-not-served')
+                break
+    if not tracing():
+        LAST_INFO = {'gaps': list(gaps), 'keys': keyof, 'cancel': {i: plan[i] for i in plan}, 'kind': 'wait_for' if use_timeout else 'task.cancel',
+                     'order': order_idx, 'batch_dur': batch_dur, 'mbs': mbs, 'rt': rt, 'disturbed': sorted(disturbed),
+                     'out': {i: repr(st.out.get(i)) for i in range(n)}, 'fresh': {j: repr(v) for j, v in fresh_out.items()},
+                     'batches': [(r['start'], r['keys'], r['end']) for r in st.batches]}
+    return sorted(set(devs))
+
+
+def twin_c09(gaps, cancel_delay):
+    """Reachability: 'a caller was cancelled while its batch was running' never happens."""
+    devs = scen_c09(gaps, [0, 1], cancel_delay, 0, False, 0, 4, 2, fresh=False)
+    for rec in RAW['batches']:
+        if 0 in RAW['out'] and RAW['out'][0][0] == 'cancelled' and rec['end'] is not None and rec['end'] > rec['start']:
+            return ['reached']
+    return []
+
+
 # =============================================================================== cells
 def parts(var, ranges):
     """pre-line fragments restricting one symbolic integer to each range of a partition."""
@@ -313,6 +628,91 @@ def product_pre(fragsets):
     return [(sfx, ' and '.join(pre)) for sfx, pre in out]
 
 
+def c04_cells(tier):
+    out = []
+    q = 'quick'
+    nb = len(BEH)
+
+    def fam(pat, mbs, mcb, rt, tier_, tmo, b0s=range(len(BEH)), deco=False, gmax=12, order=None, durs=(1, 2), tag='', split=False):
+        """one cell per behaviour of the first key; behaviour of the second key, result order (unless fixed),
+        durations and gaps symbolic; third key always answers with a value."""
+        kid = [KEYS3.index(c) for c in pat]
+        for b0 in b0s:
+            sig = 'gaps: List[int], b1: int, item_dur: int, batch_dur: int' + ('' if order is not None else ', order_idx: int')
+            pre = ['len(gaps) == %d and gaps[0] == 0 and all(0 <= g <= %d for g in gaps)' % (len(pat), gmax),
+                   '0 <= b1 <= %d and 0 <= item_dur <= %d and 0 <= batch_dur <= %d' % (nb - 1, durs[0], durs[1])]
+            if order is None:
+                pre.append('0 <= order_idx <= 2')
+            subs = [('', None)]
+            if split:
+                subs = product_pre([parts('gaps[%d]' % i, [(0, 9), (10, gmax)]) for i in range(1, len(pat))])
+            for sfx, extra in subs:
+                out.append(Cell(
+                    name='c04%s_%s_mbs%d_mcb%d_rt%d_%s%s%s' % (tag, pat, mbs, mcb, rt, BEH[b0], '_deco' if deco else '', '_p' + sfx if sfx else ''),
+                    sig=sig, pre=pre + ([extra] if extra else []),
+                    body='H.scen_c04(gaps, %r, [%d, b1, 0], %s, item_dur, batch_dur, %d, %d, %d, 10, %r)' % (
+                        kid, b0, 'order_idx' if order is None else order, mbs, mcb, rt, deco),
+                    tier=tier_, timeout=tmo, family='c04', weight=3 if split else 2))
+    # Q1: one batch of three, every pair of behaviours, every result order
+    fam('abc', 3, 1, 0, q, 300, gmax=2, durs=(0, 1), tag='_onebatch')
+    # Q2: gaps straddle batch_timeout (batches split / overlap), reverse order
+    fam('abc', 3, 1, 0, q, 400, b0s=(BEH.index('value'), BEH.index('raise'), BEH.index('omit'), BEH.index('stopiter')),
+        order=1, durs=(0, 1), tag='_split', split=True)
+    # Q3: repeated key joins the pending request
+    fam('aab', 2, 2, 0, q, 300, b0s=(BEH.index('value'), BEH.index('exc'), BEH.index('raise'), BEH.index('twice')),
+        gmax=2, durs=(0, 1), tag='_dedupe')
+    out.append(Cell(name='twin_c04_partial_failure', sig='gaps: List[int], kidx: List[int], beh: List[int]',
+                    pre=['len(gaps) == 3 and len(kidx) == 3 and len(beh) == 3 and all(0 <= g <= 3 for g in gaps)',
+                         'all(0 <= k <= 2 for k in kidx) and all(0 <= b <= 4 for b in beh)'],
+                    body='H.twin_c04(gaps, kidx, beh)', expect='refute', timeout=200, family='c04'))
+    if tier == 'thorough':
+        fam('abc', 3, 1, 0, 'thorough', 2400, tag='_full', split=True)
+        fam('abc', 2, 2, 0, 'thorough', 2400, tag='_full', split=True)
+        fam('aab', 2, 2, 0, 'thorough', 2400, tag='_full', split=True)
+        fam('aba', 2, 1, 15, 'thorough', 2400, tag='_full', split=True)
+        fam('abc', 3, 1, 0, 'thorough', 2400, deco=True, gmax=2, durs=(0, 1), tag='_onebatch')
+        fam('abca', 2, 2, 0, 'thorough', 3000, gmax=11, order=2, durs=(0, 1), tag='_four')
+    return out
+
+
+def c09_cells(tier):
+    out = []
+    q = 'quick'
+
+    def fam(pat, mbs, rt, use_to, tier_, tmo, two=False, orders=(0, 1, 2), gmax=7, cmax=12):
+        kid = [KEYS3.index(c) for c in pat]
+        n = len(pat)
+        for who in range(n):
+            for order in orders:
+                sig = 'gaps: List[int], cancel_delay: int, batch_dur: int' + (', who2: int, cancel_delay2: int' if two else '')
+                pre = ['len(gaps) == %d and gaps[0] == 0 and all(0 <= g <= %d for g in gaps)' % (n, gmax),
+                       '0 <= cancel_delay <= %d and 0 <= batch_dur <= 4' % cmax]
+                if two:
+                    pre.append('0 <= who2 <= %d and 0 <= cancel_delay2 <= %d' % (n - 1, cmax))
+                out.append(Cell(
+                    name='c09_%s_mbs%d_rt%d_%s_who%d_o%d%s' % (pat, mbs, rt, 'waitfor' if use_to else 'cancel', who, order, '_two' if two else ''),
+                    sig=sig, pre=pre,
+                    body='H.scen_c09(gaps, %r, cancel_delay, %d, %r, %d, batch_dur, %d, %d, 5, True%s)' % (
+                        kid, who, use_to, order, mbs, rt, ', who2, cancel_delay2' if two else ''),
+                    tier=tier_, timeout=tmo, family='c09', weight=2 + n))
+    fam('ab', 2, 0, False, q, 300)
+    fam('aa', 2, 0, False, q, 300, orders=(0,))
+    fam('ab', 2, 0, True, q, 300, orders=(1,))
+    fam('aa', 2, 6, False, q, 300, orders=(0,))
+    fam('aab', 3, 0, False, q, 400, orders=(2,), gmax=3, cmax=8)
+    out.append(Cell(name='twin_c09_cancel_during_batch', sig='gaps: List[int], cancel_delay: int',
+                    pre=['len(gaps) == 2 and gaps[0] == 0 and 0 <= gaps[1] <= 7 and 0 <= cancel_delay <= 12'],
+                    body='H.twin_c09(gaps, cancel_delay)', expect='refute', timeout=200, family='c09'))
+    if tier == 'thorough':
+        fam('aa', 2, 0, True, 'thorough', 1500)
+        fam('aa', 2, 6, True, 'thorough', 1500)
+        fam('aab', 3, 0, False, 'thorough', 2400, orders=(0, 1))
+        fam('aab', 2, 6, True, 'thorough', 2400)
+        fam('abc', 3, 0, False, 'thorough', 3000, two=True, orders=(1,), gmax=4, cmax=8)
+        fam('aba', 3, 0, True, 'thorough', 3000, two=True, orders=(2,), gmax=4, cmax=8)
+    return out
+
+
 def c11_cells(tier):
     out = []
     q = 'quick'
@@ -323,7 +723,7 @@ def c11_cells(tier):
                 out.append(Cell(name='c11_%s_f%d_%s' % (pat, fm, 'key' if ek else 'str'), sig=sig,
                                 pre=['len(gaps) == 2 and gaps[0] == 0 and 0 <= gaps[1] <= 25 and 0 <= rt <= 15 and 0 <= dur <= 3'],
                                 body='H.scen_c11(gaps, %r, rt, dur, %d, %r)' % ([0 if c == 'a' else 1 for c in pat], fm, ek),
-                                tier=q, timeout=170, family='c11'))
+                                tier=q, timeout=300, family='c11'))
     for pat in ('aaa', 'aab', 'aba'):
         for fm in (0, 1):
             split = [('', '0 <= gaps[2] <= 20 and 0 <= rt <= 15')] if pat == 'aaa' else \
@@ -334,7 +734,7 @@ def c11_cells(tier):
                                 pre=['len(gaps) == 3 and gaps[0] == 0 and 0 <= gaps[1] <= 20 and 0 <= dur <= 3', pre],
                                 body='H.scen_c11(gaps, %r, rt, dur, %d)' % ([0 if c == 'a' else 1 for c in pat], fm),
                                 tier=q if (fm == 0 or pat == 'aaa') else 'thorough',
-                                timeout=170 if (fm == 0 or pat == 'aaa') else 600, family='c11',
+                                timeout=300 if (fm == 0 or pat == 'aaa') else 600, family='c11',
                                 weight={'aba': 4, 'aab': 3, 'aaa': 3}[pat]))
     if tier != 'thorough':
         out = [c for c in out if c.tier == 'quick']
@@ -360,7 +760,7 @@ def c10_cells(tier):
     for n, mbs, mcb in ((3, 1, 1), (3, 2, 1), (3, 2, 2), (3, 3, 2)):
         out.append(Cell(name='c10_n%d_mbs%d_mcb%d' % (n, mbs, mcb), sig='gaps: List[int], dur: int',
                         pre=['len(gaps) == %d and gaps[0] == 0 and all(0 <= g <= 25 for g in gaps) and 0 <= dur <= 30' % n],
-                        body='H.scen_c10(gaps, dur, %d, %d)' % (mbs, mcb), tier=q, timeout=170, family='c10'))
+                        body='H.scen_c10(gaps, dur, %d, %d)' % (mbs, mcb), tier=q, timeout=300, family='c10'))
     halves = [(0, 9), (10, 25)]
     for mbs, mcb in ((2, 1), (2, 2)):
         for sfx, pre in product_pre([parts('gaps[1]', halves), parts('gaps[2]', halves), parts('gaps[3]', halves)]):
@@ -368,14 +768,14 @@ def c10_cells(tier):
             out.append(Cell(name='c10_n4_mbs%d_mcb%d_p%s' % (mbs, mcb, sfx), sig='gaps: List[int], dur: int',
                             pre=['len(gaps) == 4 and gaps[0] == 0 and 0 <= dur <= 30', pre],
                             body='H.scen_c10(gaps, dur, %d, %d)' % (mbs, mcb), tier=q if isq else 'thorough',
-                            timeout=170 if isq else 1200, family='c10'))
+                            timeout=300 if isq else 1200, family='c10'))
     for new in (1, 2, 3):
-        for sfx, pre in product_pre([parts('at', halves)]):
-            isq = sfx == '0'
+        for sfx, pre in product_pre([parts('at', [(0, 4), (5, 9), (10, 25)]), parts('dur', [(0, 5), (6, 12)])]):
+            isq = not sfx.startswith('2')
             out.append(Cell(name='c10_mutate_n3_new%d_p%s' % (new, sfx), sig='gaps: List[int], dur: int, at: int',
-                            pre=['len(gaps) == 3 and gaps[0] == 0 and all(0 <= g <= 12 for g in gaps) and 0 <= dur <= 12', pre],
+                            pre=['len(gaps) == 3 and gaps[0] == 0 and all(0 <= g <= 12 for g in gaps)', pre],
                             body='H.scen_c10(gaps, dur, 2, 2, 10, (at, %d))' % new, tier=q if isq else 'thorough',
-                            timeout=170 if isq else 1200, family='c10'))
+                            timeout=300 if isq else 1200, family='c10'))
     out.append(Cell(name='twin_c10_slot_wait', sig='gaps: List[int], dur: int',
                     pre=['len(gaps) == 2 and gaps[0] == 0 and 0 <= gaps[1] <= 25 and 0 <= dur <= 30'],
                     body='H.twin_c10(gaps, dur)', expect='refute', timeout=90, family='c10'))
@@ -402,6 +802,10 @@ def cells(prop, tier):
         out += c10_cells(tier)
     if prop == 'C11':
         out += c11_cells(tier)
+    if prop == 'C04':
+        out += c04_cells(tier)
+    if prop == 'C09':
+        out += c09_cells(tier)
     return out
 
 
@@ -434,6 +838,34 @@ META['C11'] = {
     'bounds': 'quick: 2..3 calls over keys a/b (explicit keys and str(arg) keys), gaps 0..25, retention 0..15 (symbolic, includes 0), batch '
               'duration 0..3, value and exception outcomes; thorough: 4..5 calls',
     'outside': 'cancelled callers (C09); three keys; more than 5 calls',
+    'assumptions': ['stock CPython 3.12 asyncio with pure-python Task and integer clock'],
+}
+
+
+META['C04'] = {
+    'explanation': 'AsyncBackgroundBatcher on the virtual-time loop with a harness-owned batch function whose behaviour per key is a symbolic '
+                   'index into {value, Exception instance, subclass instance, omitted, raise mid-batch, yielded twice, unknown key, '
+                   'StopIteration instance}, symbolic result order (forward/reverse/rotated), symbolic per-item and per-batch durations and '
+                   'symbolic arrival gaps. Oracle: every caller completes (idle-forever detector); identity of the returned value / raised '
+                   'exception object against the log of what was yielded for which key in which batch; batch failures reach exactly the '
+                   'unanswered callers; generic errors only for omitted keys or protocol-violating batches.',
+    'functions': [('aiuti/asyncio.py', 'AsyncBackgroundBatcher.__call__'), ('aiuti/asyncio.py', 'AsyncBackgroundBatcher._process_batch'),
+                  ('aiuti/asyncio.py', 'AsyncBackgroundBatcher._get_next_batch'), ('aiuti/asyncio.py', 'AsyncBackgroundBatcher._processing_loop')],
+    'bounds': 'quick: 3 calls, key patterns abc (one batch of 3) and aab (size 2, two concurrent), behaviour of two keys symbolic over the 8 '
+              'kinds (third key returns a value), gaps 0..12 around batch_timeout=10, item duration 0..1, batch duration 0..2; thorough: 4 calls, '
+              'retention 15, decorator form',
+    'outside': 'more than 4 calls; cancellation (C09)',
+    'assumptions': ['stock CPython 3.12 asyncio with pure-python Task and integer clock'],
+}
+META['C09'] = {
+    'explanation': 'As C04 with every key answered by a value; one or two callers are cancelled (task.cancel or wait_for expiry) at a symbolic '
+                   'delay after their arrival, spanning queued / batch running / after the result; z3 decides the position of the cancellation '
+                   'relative to batch assembly, start and end. Oracle: every caller the harness did not disturb returns the value yielded for '
+                   'its key; all complete; the processing task is alive and two fresh calls are served afterwards.',
+    'functions': META['C10']['functions'],
+    'bounds': 'quick: 2..3 callers, key patterns ab / aa / aab, cancel delay 0..12, batch duration 0..4, batch_timeout 5, retention 0 and 6, '
+              'all three result orders; thorough: two cancelled callers, 4 callers',
+    'outside': 'more than 4 callers; batch functions that fail (C04)',
     'assumptions': ['stock CPython 3.12 asyncio with pure-python Task and integer clock'],
 }
 
